@@ -206,6 +206,6 @@ def gen_cases(draw):
 
 
 CLAUSES = [
-    Clause('hand-built-graphs', check_case, kind='random', strategy=ag_cases, budget={'quick': 1200, 'thorough': 15000}),
-    Clause('generated-graphs', check_case, kind='random', strategy=gen_cases, budget={'quick': 600, 'thorough': 8000}),
+    Clause('hand-built-graphs', check_case, kind='random', strategy=ag_cases, budget={'quick': 5000, 'thorough': 40000}),
+    Clause('generated-graphs', check_case, kind='random', strategy=gen_cases, budget={'quick': 2500, 'thorough': 20000}),
 ]
